@@ -583,6 +583,10 @@ func (g *gen) stmt(budget int) {
 			g.line("%s >>= %d", v.name, g.draw(0, v.width-1, "shrk"))
 		} else {
 			e, _ := g.exprAvoiding(v, 2)
+			if g.chance(40, "copself") {
+				// "x op= f(x)": facts must not be rewritten through the new value (fixed finding K5)
+				e, _ = g.expr(v.width, typeMax(v.width), 2)
+			}
 			g.line("%s %s %s", v.name, op, e)
 		}
 	case kind == 9 && g.impure && len(g.arrays) > 0: // element store
@@ -603,11 +607,50 @@ func (g *gen) stmt(budget int) {
 			g.o.excluded("K5-self-assign-fact")
 			break
 		}
-		g.line("if %s < %s {", v.name, hex(k))
-		g.depth++
-		g.line("%s += 1", v.name)
-		g.depth--
-		g.line("}")
+		switch m := int64([]int{1, 3, 7, 15}[g.draw(0, 3, "gim")]); g.draw(0, 4, "giself") {
+		case 4: // an equality fact, then "x += f(x)" / "x -= f(x)"
+			if lim := new(big.Int).Sub(v.max, big.NewInt(m)); lim.Sign() > 0 {
+				k2 := g.constant(lim)
+				g.line("%s = %s", v.name, hex(k2))
+				if g.chance(50, "gieqsub") && k2.Cmp(big.NewInt(m)) >= 0 {
+					g.line("%s -= (%s & %d)", v.name, v.name, m)
+				} else {
+					g.line("%s += (%s & %d)", v.name, v.name, m)
+				}
+				break
+			}
+			fallthrough
+		case 0: // "x += f(x)" under a fact about x (plain += / -= rewrite the facts about their lhs)
+			if lim := new(big.Int).Sub(v.max, big.NewInt(m)); lim.Sign() > 0 {
+				k2 := g.constant(lim)
+				if k2.Sign() == 0 {
+					k2 = big.NewInt(1)
+				}
+				g.line("if %s < %s {", v.name, hex(k2))
+				g.depth++
+				g.line("%s += (%s & %d)", v.name, v.name, m)
+				g.depth--
+				g.line("}")
+				break
+			}
+			fallthrough
+		case 1:
+			if v.max.Cmp(big.NewInt(m)) >= 0 {
+				g.line("if %s >= %d {", v.name, m)
+				g.depth++
+				g.line("%s -= (%s & %d)", v.name, v.name, m)
+				g.depth--
+				g.line("}")
+				break
+			}
+			fallthrough
+		default:
+			g.line("if %s < %s {", v.name, hex(k))
+			g.depth++
+			g.line("%s += 1", v.name)
+			g.depth--
+			g.line("}")
+		}
 	case kind <= 12 && budget > 0: // if / else
 		g.line("if %s {", g.cond())
 		g.depth++
